@@ -257,7 +257,10 @@ def border_programs():
         out.append(head + bad + '\nPRINT "x"\n')
         out.append(head + 'CALL p(1)\nEND\nSUB p (a%)\n  ' + bad + '\n  PRINT a%\nEND SUB\n')
         out.append(head + 'PRINT f%(1)\nEND\nFUNCTION f% (a%)\n  ' + bad + '\n  f% = 1\nEND FUNCTION\n')
-    for arg in ('big()', 'big', 'big(1)', 't$', '(n%)', 'n% + 0', '1.5', '"s"', 'n%, n%', ''):
+    # (expressions that are nearly lvalues, of another numeric type than the parameter: passed by value and converted, whatever
+    # a folder reduces them to)
+    for arg in ('big()', 'big', 'big(1)', 't$', '(n%)', 'n% + 0', '1.5', '"s"', 'n%, n%', '', '+big(1)', '+n%', '+(big(1))', '-(-big(1))',
+                '0 + big(1)', '+big(n%)', '+1.5', '(big(1))', 'big(1) * 1', '+ +big(1)'):
         out.append(head + f'CALL p({arg})\nPRINT n%; big(1)\nEND\nSUB p (a%)\n  a% = a% + 1\n  PRINT a%\nEND SUB\n')
         out.append(head + f'CALL pa({arg})\nPRINT n%; big(1)\nEND\nSUB pa (a() AS LONG)\n  a(2) = 7\n  PRINT a(1)\nEND SUB\n')
     # constant array bounds that are not whole numbers (the frame is sized at compile time, the header is written at run time:
